@@ -1,5 +1,10 @@
 # property id -> claim text (filled as checks are admitted; everything else is listed under NA with the reason)
 CLAIMS = {
+ 'C14': {'technique': 'static analysis: extraction and comparison of archive operations (field name, kind, default, base chaining) per class, member read/write coverage, factory/TypeCode table agreement, path-based null-test rule',
+         'text': 'Decides the archiving clause structurally for every filter tree at once: each class saves and restores the same (name, kind) fields with the same defaults and the same base chaining; every member '
+                 'read under Matches is saved and restored somewhere in the class chain; every filter type code has a factory case creating the class that reports it; no Matches removes const; factory results '
+                 'are null-tested on every path before they are dereferenced. Operator semantics, combinator truth tables and the expression grammar are not decided.',
+         'note': 'One frozen exception: StringQueryFilter::_matcher (derived cache).'},
  'C17': {'technique': 'static analysis: symbolic byte-count evaluation of the String codec, bounded-scan and sticky-status path rules on the reader',
          'text': 'Decides only the serialisation clause of C17: String::Flatten writes FlattenedSize() == Length()+1 bytes from Cstr(); ReadCString scans inside the available bytes and flags a missing terminator '
                  'through the sticky status, which String::Unflatten consults before returning OK (unterminated input is rejected). All in-memory string operations, the small-buffer boundary and aliasing are not decided.',
@@ -84,6 +89,6 @@ CLAIMS = {
          'note': 'Assumes const methods with by-value/const-ref parameters do not change what loop tests read; logging and destructor hubs are cut from the recursion graph.'},
 }
 _PENDING = 'check under construction in this session (see DESIGN.md section 4); not claimed until its rule is admitted'
-NA = {pid: _PENDING for pid in ['C03','C08','C14']}
+NA = {pid: _PENDING for pid in ['C03','C08']}
 NA['C09'] = ('refinement of an ideal ordered map over operation histories with live iterators: its mechanisms are co-located with the mutations they protect inside single template functions; '
              'no sound structural necessary condition was found that is not either compiler-enforced or a frozen-fragment match (DESIGN.md section 4, C09)')
